@@ -115,23 +115,13 @@ macro_rules! with_field {
     }};
 }
 
-/// Collects mismatches of one scenario.
-pub struct Report {
-    pub calls: usize,
-    pub bad: Vec<Value>,
-}
-
-impl Report {
-    pub fn new() -> Self {
-        Report { calls: 0, bad: vec![] }
+// the 64-bit production field, for the commitment engine's Rp64_256 runs: scenario values are small
+// non-negative integers (below the toy modulus), taken as canonical representatives
+impl Elem for winter_math::fields::f64::BaseElement {
+    fn from_json(v: &Value) -> Self {
+        Self::new(int_of(v) as u64)
     }
-    /// Compares what the real call returned (or its panic) with the expected JSON value.
-    pub fn check(&mut self, call: &str, got: Result<Value, String>, expected: &Value) {
-        self.calls += 1;
-        match got {
-            Ok(v) if &v == expected => {},
-            Ok(v) => self.bad.push(serde_json::json!({"call": call, "expected": expected, "got": v, "panic": ""})),
-            Err(p) => self.bad.push(serde_json::json!({"call": call, "expected": expected, "got": "panic", "panic": p})),
-        }
+    fn to_json(&self) -> Value {
+        Value::from(self.as_int())
     }
 }
